@@ -71,12 +71,12 @@ func (c *ckInfo) Token() string {
 }
 
 type logKeys struct {
-	name   string
-	pub    *ecdsa.PublicKey
-	keyID  [32]byte
-	mlpub  *mldsa.PublicKey
-	mlver  *torchwood.CosignatureVerifier
-	rfcKH  uint32
+	name  string
+	pub   *ecdsa.PublicKey
+	keyID [32]byte
+	mlpub *mldsa.PublicKey
+	mlver *torchwood.CosignatureVerifier
+	rfcKH uint32
 }
 
 func newLogKeys(name string, pub *ecdsa.PublicKey, ml *mldsa.PublicKey) *logKeys {
